@@ -23,6 +23,7 @@ structure World where
   rhq : List Nat := []        -- … rating peer (HR)
   abmfDead : Bool := false    -- the stored document is one the account-balance server cannot digest: no answer
   rfDead : Bool := false      -- … the rating server
+  serial : Bool := Chf.Gen.abmfServer.lockBeforeRead   -- overridden by the scenario's S step (measured on the real server)
   abusy : Nat := 0            -- the account-balance server works on the subscriber's account until then: it handles the requests
                               -- for one account one after the other (pkg/abmf lockAccount), so a request that reaches it
                               -- earlier waits for the handler before it
@@ -46,9 +47,9 @@ def wCallAbmf (w : World) : World × CallResult :=
   -- the request reaches the server once the connection is set up; its handler starts when the account is free, then takes d
   let t := w.now + h
   let start := max t w.abusy
-  let wait := if Chf.Gen.abmfServer.lockBeforeRead then start - t else 0
+  let wait := if w.serial then start - t else 0
   let (sim, r) := call Chf.Gen.abmfClient w.abmf (w.now - w.abmf.now) (if w.abmfDead then never else wait + d) w.copies h
-  let abusy := if w.abmfDead || !Chf.Gen.abmfServer.lockBeforeRead then w.abusy else start + d
+  let abusy := if w.abmfDead || !w.serial then w.abusy else start + d
   ({ w with abmf := sim, aq := aq, ahq := ahq, now := max w.now sim.now, abusy := abusy }, r)
 
 def isTimeout : CallResult → Bool
@@ -110,6 +111,7 @@ def peerSteps : List String → World → List String → Option (List String)
       else if k ≤ 4 then peerSteps rest { w with rfDead := true, abmfDead := false } acc
       else if k = 9 then peerSteps rest { w with abmfDead := false, rfDead := false } acc
       else none
+    | "S", some b => if b ≤ 1 then peerSteps rest { w with serial := b == 1 } acc else none
     | "A", some d => peerSteps rest { w with aq := w.aq ++ [d] } acc
     | "R", some d => peerSteps rest { w with rq := w.rq ++ [d] } acc
     | "W", some d => peerSteps rest { w with now := w.now + d } acc
